@@ -140,7 +140,7 @@ class Tail:
                 # a gate comparison: `distance <op> tolerance`
                 pid = next(iter(pa or pc))
                 passes = row_of_pose(pid) not in sc.gate_false
-                log['gate'].append((pid, op))
+                log['gate'].append((pid, op, a, c))
                 small_side_left = bool(pa)
                 if op in ('Lt', 'Le'):
                     return passes if small_side_left else not passes
@@ -238,7 +238,50 @@ class Tail:
         self.baseline = [()] * 0
         rows, log = self.run(sc)
         self.baseline = [tuple(strip_turns(x)[0] for x in r) for r in rows]
+        self.gates = list(log['gate'])
         return rows, log
+
+    def gate_clauses(self):
+        """the comparisons the gate consists of, as seen in the run where everything passes:
+        [(kind, op, tolerance)] with kind 'position' for norm(requested translation - forward translation), 'angle' for an
+        angle between the two rotations, '?' otherwise; the side holding the distance is normalised to the left"""
+        out = []
+
+        def has(e, what):
+            if isinstance(e, Sym):
+                t = e.tag
+                if t == what:
+                    return True
+                if isinstance(t, tuple):
+                    return any(has(x, what) for x in t) or (what in t)
+            return False
+
+        def calls(e, suffix):
+            if isinstance(e, Sym) and isinstance(e.tag, tuple):
+                if e.tag and e.tag[0] == 'call' and str(e.tag[1]).split('::')[-1] == suffix:
+                    return True
+                return any(calls(x, suffix) for x in e.tag)
+            return False
+        for pid, op, a, c in getattr(self, 'gates', []):
+            if poses_in(c) and not poses_in(a):
+                a, c = c, a
+                op = {'Lt': 'Gt', 'Le': 'Ge', 'Gt': 'Lt', 'Ge': 'Le'}.get(op, op)
+            d = a
+            while isinstance(d, Sym) and isinstance(d.tag, tuple) and d.tag and d.tag[0] == 'call' and str(d.tag[1]).endswith('abs'):
+                d = d.tag[2]
+            kind = '?'
+            if isinstance(d, Sym) and isinstance(d.tag, tuple) and d.tag[0] == 'call' and str(d.tag[1]).split('::')[-1] == 'norm' and len(d.tag) == 3:
+                df = d.tag[2]
+                if isinstance(df, Sym) and isinstance(df.tag, tuple) and df.tag[0] == 'bin' and df.tag[1] == 'Sub':
+                    x, y = df.tag[2], df.tag[3]
+                    req = [z for z in (x, y) if has(z, 'pose-arg') and not poses_in(z)]
+                    fwd = [z for z in (x, y) if poses_in(z) and not has(z, 'pose-arg')]
+                    if len(req) == 1 and len(fwd) == 1 and all(has(z, 'translation') for z in (x, y)) and not calls(df, 'norm'):
+                        kind = 'position'
+            elif calls(d, 'angle_to') and has(d, 'pose-arg') and has(d, 'rotation'):
+                kind = 'angle'
+            out.append((kind, op, c))
+        return out
 
     def expected(self, sc):
         out = []
